@@ -54,7 +54,7 @@ def run(ctx):
     ctx.judge("Judge_c06", "Judge_c06.cfg", of, label="rand1", chunk=6000)
     ctx.note("family 1 random strings: %d" % ctx.count_lines(of))
     # ---- rune sweep: every Unicode scalar value inside short frames (Gen_c06s)
-    shapes = '{"mid"}' if ctx.quick else '{"mid", "solo", "first", "last", "esc", "q"}'
+    shapes = '{"mid", "solo", "first", "last", "esc", "q"}'
     c = "Gen_c06s.cfg"
     open(ctx.path("spec", c), "w").write("SPECIFICATION Spec\nCONSTANTS\n  BlockSize = 2048\n  Shapes = %s\nCHECK_DEADLOCK FALSE\n" % shapes)
     cf = ctx.path("cases_sweep.ndjson")
@@ -66,7 +66,7 @@ def run(ctx):
     nruns = sum((1 if "runlen" in x["obs"] else 0) + len(x["obs"].get("rest", [])) for x in recs)
     ctx.note("rune sweep: %d blocks, shapes %s: %d strings quoted and scanned by the real code, %d runs of alike behaviour judged"
              % (len(recs), shapes, nrunes, nruns))
-    if nrunes < 1112064:
+    if nrunes < 1112064 * 6:
         raise vp.Broken("rune sweep covered only %d strings" % nrunes)
     ctx.coverage_extra["rune_sweep_strings"] = nrunes
     ctx.judge("Judge_c06", "Judge_c06.cfg", of, label="sweep", chunk=6000)
